@@ -768,6 +768,8 @@ def s3_next_line(ctx):
     ctx.fn(b)
     if b.loops():
         raise AnchorLost('next_line contains a loop')
+    sf = model.session_fields(ctx)
+    LN, CN = '.' + sf['lines_name'], '.' + sf['cursor_name']
     bad = []
     cells = 0
     for n in range(0, 6):
@@ -775,13 +777,13 @@ def s3_next_line(ctx):
             def leaf(body, e, n=n, p_=p_):
                 e2 = strip(e, transparent=False)
                 if e2[0] == 'call':
-                    if re.search(r'Cell::<.*>::get$', e2[1]) and 'position' in render(e2):
+                    if re.search(r'Cell::<.*>::get$', e2[1]) and render(e2).rstrip(')').endswith(CN):
                         return p_
-                    if re.search(r'(Vec::<.*>|slice::<impl \[T\]>)::len$', e2[1]) and 'text_parts' in render(e2):
+                    if re.search(r'(Vec::<.*>|slice::<impl \[T\]>)::len$', e2[1]) and render(e2).rstrip(')').endswith(LN):
                         return n
                     if e2[1].endswith('Session::line_count') or e2[1].endswith('Session::has_value'):
                         return None
-                if e2[0] == 'unop' and e2[1] == 'PtrMetadata' and 'text_parts' in render(e2):
+                if e2[0] == 'unop' and e2[1] == 'PtrMetadata' and render(e2).rstrip(')').endswith(LN):
                     return n
                 return None
             r = walk_cfg(b, leaf, watch=r'Cell::<.*>::set$')
@@ -791,6 +793,16 @@ def s3_next_line(ctx):
                 continue
             sets = [c for c in r['calls']]
             rk = None
+            # `_0 = move tmp`: what the path assigned to tmp (a result built in a helper's match arm and handed on)
+            from ..facts import opplace as _opp
+            for _hop in range(4):
+                rr = r['ret']
+                if rr is not None and rr.get('k') == 'assign' and rr['rv'] == 'use':
+                    pl = _opp(rr['ops'][0])
+                    if pl and not pl['proj'] and pl['local'] in r.get('last', {}):
+                        r['ret'] = r['last'][pl['local']]
+                        continue
+                break
             if r['ret'] is not None:
                 if r['ret'].get('k') == 'assign' and r['ret']['rv'] == 'aggr':
                     rk = r['ret']['adt'].rsplit('::', 1)[1]
@@ -816,8 +828,8 @@ def s3_next_line(ctx):
     # the line handed out is the one at the new cursor
     idx = model.deep_calls(ctx, b, r'Index<.*>>::index$|slice::<impl \[T\]>::get$|Vec::<.*>::get$')
     txt = ' '.join(render(a) for _b, _t, as_ in idx for a in as_)
-    if 'text_parts' in txt and ('position' in txt):
-        ctx.ok('S3', 'the returned line is text_parts[cursor]', 'wiring', site=b.loc)
+    if LN in txt and (CN in txt):
+        ctx.ok('S3', 'the returned line is the line at the cursor', 'wiring', site=b.loc)
     else:
         ctx.finding('S3', 'next_line/line', 'the returned line is not indexed by the cursor: %s' % txt[:100], site=b.loc)
 
